@@ -19,8 +19,8 @@ class ClassBalancedSampler:
         self.dataset = dataset
         self.shuffle = shuffle
         self.seed = seed
-        self.rank = rank or get_rank()
-        self.world_size = world_size or get_world_size()
+        self.rank = get_rank() if rank is None else rank
+        self.world_size = get_world_size() if world_size is None else world_size
         self.epoch = 0
 
         # load/check all classes
